@@ -192,9 +192,15 @@ def worker(spec, out):
             out.maybe_flush()
 
 
+def _pdeath():
+    from vf import build
+
+    build.die_with_parent()
+
+
 def run_child(sc, timeout=45):
     env = dict(os.environ)
-    p = subprocess.Popen([sys.executable, "-m", "vf.props.c06", json.dumps(sc)], stdout=subprocess.PIPE, stderr=subprocess.PIPE, env=env, cwd=os.path.dirname(os.path.dirname(os.path.dirname(os.path.abspath(__file__)))))
+    p = subprocess.Popen([sys.executable, "-m", "vf.props.c06", json.dumps(sc)], stdout=subprocess.PIPE, stderr=subprocess.PIPE, env=env, preexec_fn=_pdeath, cwd=os.path.dirname(os.path.dirname(os.path.dirname(os.path.abspath(__file__)))))
     try:
         so, se = p.communicate(timeout=timeout)
     except subprocess.TimeoutExpired:
